@@ -716,7 +716,7 @@ def run(index, rep, tier):
     rep.rule("R20.2", "end-of-stream exit: under the end-of-stream assumption (optional sources return None, is_eof() holds) no reader loop has a feasible cycle")
     rep.rule("R20.3", "no dereference of an optional value: locals fed by next_token*/current_token/None-returning parsers (and the declared-dimension fields) are not used as attribute base, subscript base, int()/float()/len() argument or ordering operand without a dominating non-None test")
     rep.rule("R20.4", "error family: every raise reachable from a reader entry point constructs a DataParseError subclass (or is internal control flow / a documented configuration error); token text is converted with int()/float() only under a handler or a digit guard")
-    rep.rule("R20.5", "input-proportional recursion: no cycle in the call graph of the reader modules")
+    rep.rule("R20.5", "input-proportional recursion: no cycle in the call graph of the reader modules, unless every call into the cycle from outside it sits in a try that catches RecursionError (the fence R20.25 describes)")
     rep.rule("R20.6", "declared dimensions are enforced: a reader that stores a declared nchar/ntax compares it with what it found on a path that raises, after the data loop")
     sm = Summaries(index)
     rep.extra["function_summaries"] = {
@@ -814,7 +814,18 @@ def run(index, rep, tier):
         for comp in cycles:
             q = sorted(comp)[0]
             fi = sm.byq[q]
-            rep.check(False, "R20.5", q, "recursion cycle %s" % " -> ".join(x.rsplit(".", 1)[1] for x in sorted(comp)), fn_where(fi),
+            # a cycle is tolerable when every way into it is fenced: the caller catches RecursionError and raises its own error (R20.25)
+            entries = []
+            for f in sm.fns:
+                if f.qualname in comp:
+                    continue
+                pm_ = None
+                for c in calls_in(f.node):
+                    if any(cal.qualname in comp for cal in sm.callees(f, c)):
+                        pm_ = pm_ or parent_map(f.node)
+                        entries.append(_in_try_catching(pm_, c, {"RecursionError", "RuntimeError"}))
+            fenced = bool(entries) and all(entries)
+            rep.check(fenced, "R20.5", q, "recursion cycle %s" % " -> ".join(x.rsplit(".", 1)[1] for x in sorted(comp)), fn_where(fi),
                       "recursion in the reader call graph", "the reader functions %s call each other recursively with a depth driven by the input (nesting / number of consecutive comments): a long enough input exhausts the interpreter stack and the reader fails with RecursionError"
                       % sorted(x.split("dataio.")[1] for x in comp))
         if not cycles:
